@@ -1,6 +1,8 @@
 package checks
 
 import (
+	"os"
+	"verif/vsync"
 	"encoding/json"
 	"fmt"
 	"sort"
@@ -148,6 +150,14 @@ func runFault(t *faultTask) *faultResult {
 	phase := "open"
 	vsched.WantWhere = t.Where
 	defer func() { vsched.WantWhere = false }()
+	if os.Getenv("VERIF_DEBUG") != "" {
+		vsync.DebugPool = true
+		defer func() {
+			for _, d := range vsync.DoublePuts {
+				fmt.Fprintln(os.Stderr, "DOUBLE-PUT", d)
+			}
+		}()
+	}
 	r := vsched.Run(vsched.Options{}, func() {
 		w = harness.NewWorld(harness.Config{Name: t.Cfg})
 		w.TolerateErrors = true
@@ -400,6 +410,7 @@ type cfgHist struct {
 	ops []string
 }
 
+var richSuffixAlpha = []string{"w:-a,-c", "del:a", "put:b", "cr", "q"}
 var richAlpha = []string{"put:a", "put:b", "put:c", "del:a", "del:c", "w:-a,-c", "q", "cr"}
 
 // richHistories: shortest histories reaching deep / tombstone-rich / multi-table layouts in
@@ -412,8 +423,15 @@ func richHistories(c *explore.Ctx, id string, depth, max int) []cfgHist {
 		hs, feats := findRichHistories(c, pool, cfg, richAlpha, depth, max)
 		c.Coverage["layout_features_"+cfg] = feats
 		for _, h := range hs {
-			out = append(out, cfgHist{cfg, append(append([]string{}, h...), "cr", "q")})
-			out = append(out, cfgHist{cfg, append(append([]string{}, h...), "q", "Sput:b", "q")})
+			// continue each rich state with every short suffix that deletes, overwrites and
+			// compacts (a compaction over tombstones is where retry/revert logic matters)
+			for _, sfx := range genSeqs(richSuffixAlpha, 2) {
+				if len(sfx) == 0 {
+					continue
+				}
+				ops := append(append([]string{}, h...), sfx...)
+				out = append(out, cfgHist{cfg, append(ops, "q")})
+			}
 		}
 	}
 	c.Coverage["rich_histories"] = len(out)
